@@ -1,6 +1,7 @@
 import AfqmcVerif.Lemmas.SingleDet
 import AfqmcVerif.Lemmas.Estimator
 import AfqmcVerif.Lemmas.CisdOverlap
+import AfqmcVerif.Lemmas.UcisdOverlap
 import Mathlib.Data.Matrix.ColumnRowPartitioned
 import Mathlib.LinearAlgebra.Matrix.SchurComplement
 
@@ -96,5 +97,19 @@ theorem cisd_overlap_is_manybody {k v : ℕ} (W : Matrix (Fin (k + v)) (Fin k) K
     (hW : AfqmcVerif.Excite.D0 W ≠ 0) (h2 : (2 : K) ≠ 0) :
     AfqmcVerif.Excite.cisdCode W c1 c2 = AfqmcVerif.Excite.cisdSpec W c1 c2 :=
   AfqmcVerif.Excite.cisd_overlap W c1 c2 hW h2
+
+/-- **unrestricted CISD overlap** (`UCISD`, `ucisd`): the closed form `(1 + o1 + o2)·o0` with
+`o2 = ½ Σ c^AA G^a G^a + ½ Σ c^BB G^b G^b + Σ c^AB G^a G^b` equals the explicit determinant expansion of
+`(1 + Σ c^A E^α + Σ c^B E^β + ¼ Σ c^AA E^α E^α + ¼ Σ c^BB E^β E^β + Σ c^AB E^α E^β)|ref⟩`, for same-spin amplitude tensors
+antisymmetric in their virtual indices (what the class expects); `Wb` is the down walker in the basis of the
+trial's down orbitals (`mo_coeff[1].T @ walker_dn`) -/
+theorem ucisd_overlap_is_manybody {ka va kb vb : ℕ} (Wa : Matrix (Fin (ka + va)) (Fin ka) K)
+    (Wb : Matrix (Fin (kb + vb)) (Fin kb) K) (c1A : Fin ka → Fin va → K) (c1B : Fin kb → Fin vb → K)
+    (cAA : Fin ka → Fin va → Fin ka → Fin va → K) (cBB : Fin kb → Fin vb → Fin kb → Fin vb → K)
+    (cAB : Fin ka → Fin va → Fin kb → Fin vb → K)
+    (hWa : AfqmcVerif.Excite.D0 Wa ≠ 0) (hWb : AfqmcVerif.Excite.D0 Wb ≠ 0) (h2 : (2 : K) ≠ 0)
+    (hAA : ∀ i a j b, cAA i b j a = -cAA i a j b) (hBB : ∀ i a j b, cBB i b j a = -cBB i a j b) :
+    AfqmcVerif.Excite.ucisdCode Wa Wb c1A c1B cAA cBB cAB = AfqmcVerif.Excite.ucisdSpec Wa Wb c1A c1B cAA cBB cAB :=
+  AfqmcVerif.Excite.ucisd_overlap Wa Wb c1A c1B cAA cBB cAB hWa hWb h2 hAA hBB
 
 end AfqmcVerif.Props.C01
